@@ -4,6 +4,7 @@ From Coq Require Import Strings.String Strings.Byte.
 From Coq Require Import List Arith NArith ZArith Bool.
 From PV Require Import Base.Bytes Base.Outcome Base.KV Proto.Model Proto.Proofs Did.Model Did.Props.
 From PV Require Import Chain.Model Chain.Run Chain.DidProps Chain.ExampleDid.
+From PV Require Chain.DidGenesisInv.
 Import ListNotations.
 Local Open Scope N_scope.
 
@@ -68,3 +69,11 @@ Example C04_nonvacuous :
      [ROk []; RMsg 0 (b "did") 9; RMsg 0 (b "did") 9; ROk []];
      [ROk []; RMsg 0 (b "did") 13; RMsg 0 (b "did") 13]].
 Proof. split; [exact ideal_verify_binds | exact (proj1 did_history_results)]. Qed.
+
+(** the stored sequence is a uint64 in the code and an unbounded natural number in the model: they never part, because a
+    proof over the last uint64 value is refused (as repaired, F15 — the increment used to wrap around to the initial
+    sequence), so an accepted proof over [s <= max_seq] answers [s + 1 <= max_seq] *)
+Theorem C04_sequence_never_wraps : forall b58key verify data s doc vmid sig n,
+  s <= max_seq -> verify_ownership b58key verify marshal_doc data s doc vmid sig = Ok n -> n = s + 1 /\ n <= max_seq.
+Proof. exact Chain.DidGenesisInv.accepted_sequence_stays_uint64. Qed.
+Print Assumptions C04_sequence_never_wraps.
